@@ -15,6 +15,7 @@ import (
 
 	"github.com/anishathalye/porcupine"
 	"github.com/vulcand/oxy/v2/connlimit"
+	"github.com/vulcand/oxy/v2/internal/holsterv4/clock"
 	"github.com/vulcand/oxy/v2/utils"
 	"github.com/vulcand/oxy/v2/verifharness/sim"
 	"github.com/vulcand/oxy/v2/verifharness/vstat"
@@ -99,6 +100,8 @@ func TestC04_Schedules(t *testing.T) {
 		inside := map[string]int{}
 		maxInside := 0
 		gate := &sim.Gate{}
+		clock.Freeze(time.Date(2026, 6, 1, 0, 0, 0, 0, time.UTC)) // the harness owns the library's clock (real timers are unaffected)
+		defer clock.Unfreeze()
 		// a quarter of the cases use long source identifiers (bearer tokens) that differ only at the end
 		longPrefix := ""
 		if rapid.IntRange(0, 3).Draw(t, "longSourceNames") == 0 {
@@ -156,6 +159,10 @@ func TestC04_Schedules(t *testing.T) {
 		var inflight []fl
 		var log []string
 		rejections, panics, mutations, cancels, rewraps, doneOnArrival := 0, 0, 0, 0, 0, 0
+		longRuns, heavy, heavyLeft := 0, 0, 0
+		if rapid.IntRange(0, 59).Draw(t, "heavyOtherTraffic") == 0 {
+			heavyLeft = 1
+		}
 		used := map[string]bool{}
 		start := func(src string, mustAdmit, mustReject bool) {
 			if byIP && src == "" {
@@ -291,6 +298,40 @@ func TestC04_Schedules(t *testing.T) {
 				log = append(log, "Wrap(same-handler)")
 			}
 			op := rapid.IntRange(0, 6).Draw(t, "op")
+			if slow := rapid.IntRange(0, 19).Draw(t, "longRun"); slow == 0 {
+				// minutes to hours pass while requests are executing (downloads, long polls): they
+				// still occupy their slots
+				d := rapid.SampledFrom([]time.Duration{6 * time.Minute, 11 * time.Minute, time.Hour, 26 * time.Hour}).Draw(t, "timePasses")
+				clock.Advance(d)
+				log = append(log, fmt.Sprintf("time-passes(%v)", d))
+				longRuns++
+			} else if slow <= 6 && heavyLeft > 0 && len(inflight) > 0 {
+				// a lot of short traffic of other sources comes and goes meanwhile
+				heavyLeft--
+				k := rapid.SampledFrom([]int{4200, 8300, 9100}).Draw(t, "otherRequests")
+				for j := 0; j < k; j++ {
+					req := httptest.NewRequest("GET", "http://x/", nil)
+					setSource(req, fmt.Sprintf("%sheavy-%d", longPrefix, j%50))
+					if byIP {
+						req.RemoteAddr = fmt.Sprintf("192.0.2.%d:%d", 1+j%50, 1024+j%60000)
+					}
+					req.Header.Set("X-Grp", "heavy")
+					c, err := gate.Start(cl, req)
+					if err != nil {
+						t.Fatalf("%v", err)
+					}
+					if c.Entered {
+						if err := c.Finish(sim.Outcome{Status: 200}); err != nil {
+							t.Fatalf("%v", err)
+						}
+						mu.Lock()
+						inside[fmt.Sprintf("heavy-%d", j%50)]--
+						mu.Unlock()
+					}
+				}
+				log = append(log, fmt.Sprintf("other-traffic(%d requests of 50 other sources)", k))
+				heavy++
+			}
 			if op == 6 && len(inflight) > 0 {
 				// the client of an in-flight request goes away: its context is cancelled, but the
 				// handler keeps running, so the request still occupies its slot
@@ -336,6 +377,12 @@ func TestC04_Schedules(t *testing.T) {
 		}
 		if doneOnArrival > 0 {
 			cl2 = append(cl2, "context-done-on-arrival")
+		}
+		if longRuns > 0 {
+			cl2 = append(cl2, "hours-pass-while-requests-execute")
+		}
+		if heavy > 0 {
+			cl2 = append(cl2, "thousands-of-other-requests-meanwhile")
 		}
 		if cancels > 0 {
 			cl2 = append(cl2, "context-cancelled-while-in-flight")
